@@ -69,10 +69,14 @@ class ReadIdSplitReadGrouper(AbstractReadGrouper):
 
 
 class ReadTableGrouper(AbstractReadGrouper):
-    def __init__(self, table_tsv_file, read_id_column_index=0, group_id_column_index=1, delim='\t'):
+    def __init__(self, table_tsv_file, read_id_column_index=0, group_id_column_index=1, delim='\t', internal=False):
         AbstractReadGrouper.__init__(self)
         logger.debug("Reading read groups from " + table_tsv_file)
-        self.read_map = load_table(table_tsv_file, read_id_column_index, group_id_column_index, delim)
+        if internal:
+            # per-chromosome file written by split_read_group_table: read verbatim, not with the user-table parser
+            self.read_map = load_split_table(table_tsv_file)
+        else:
+            self.read_map = load_table(table_tsv_file, read_id_column_index, group_id_column_index, delim)
 
     def get_group_id(self, alignment, filename=None):
         if alignment.query_name not in self.read_map:
@@ -145,7 +149,7 @@ def create_read_grouper(args, sample, chr_id):
         return ReadIdSplitReadGrouper(delim=values[1])
     elif values[0] == 'file':
         read_group_chr_filename = sample.read_group_file + "_" + chr_id
-        return ReadTableGrouper(read_group_chr_filename, 0, 1, '\t')
+        return ReadTableGrouper(read_group_chr_filename, 0, 1, '\t', internal=True)
     else:
         logger.critical("Unsupported read grouping option")
         return DefaultReadGrouper()
@@ -180,6 +184,20 @@ def load_table(table_tsv_file, read_id_column_index, group_id_column_index, deli
     return read_map
 
 
+def load_split_table(split_file):
+    # per-chromosome file written by split_read_group_table: one "<read id>\t<group>\n" per read, fields verbatim
+    # (no comment lines, nothing stripped: a read id may start with '#', a group may be empty, begin / end with blanks
+    # or contain tabs; the read id is everything before the first tab)
+    read_map = {}
+    with open(split_file, 'r', newline='\n') as handle:
+        for line in handle:
+            if line.endswith('\n'):
+                line = line[:-1]
+            read_id, group_id = line.split('\t', 1)
+            read_map[read_id] = group_id
+    return read_map
+
+
 def split_read_group_table(table_file, sample, read_id_column_index, group_id_column_index, delim):
     read_groups = load_table(table_file, read_id_column_index, group_id_column_index, delim)
     read_group_files = {}
@@ -190,7 +208,7 @@ def split_read_group_table(table_file, sample, read_id_column_index, group_id_co
         bam = pysam.AlignmentFile(bam_file, "rb")
         for chr_id in bam.references:
             if chr_id not in read_group_files:
-                read_group_files[chr_id] = open(sample.read_group_file + "_" + chr_id, "w")
+                read_group_files[chr_id] = open(sample.read_group_file + "_" + chr_id, "w", newline='\n')
         for read_alignment in bam:
             chr_id = read_alignment.reference_name
             if not chr_id:
